@@ -243,8 +243,21 @@ impl Eng {
       // virtual clock ("at": ms on a net / wrote input): the engine stamps activity with Instant::now();
       // plant a sentinel, see whether the call stamped, and re-stamp with the scripted time
       let at = i.get("at").and_then(|x| x.as_u64());
-      let saved = e.verif_last_activity();
       let sentinel = base - Duration::from_secs(3600);
+      // "frame_before": the session frames an outbound batch (frame_batch / frame_batch_vectored) at virtual time tf just
+      // before this input. Framing is not activity: if the call stamps, the stamp is moved to the scripted time so that
+      // the consequence shows in the following ticks (the model's heartbeat state ignores framing)
+      if let Some(tf) = i.get("frame_before").and_then(|x| x.as_u64()) {
+        let saved0 = e.verif_last_activity();
+        e.verif_set_last_activity(sentinel);
+        let mut fb = FrameBatch::new();
+        fb.push(Msg::from_vec(vec![1, 2, 3]));
+        let _ = e.frame_batch(&[fb.clone()]);
+        let _ = e.frame_batch_vectored(&[fb]);
+        let stamped = e.verif_last_activity() != sentinel;
+        e.verif_set_last_activity(if stamped { base + Duration::from_millis(tf) } else { saved0 });
+      }
+      let saved = e.verif_last_activity();
       if at.is_some() {
         e.verif_set_last_activity(sentinel);
       }
